@@ -1,5 +1,6 @@
 import Blots.Lemmas.AggLaws
 import Blots.Lemmas.ToyOps
+import Blots.Lemmas.Rounding
 /-
   C15 — Aggregates equal their mathematical definitions in both calling conventions.
 
@@ -11,8 +12,12 @@ import Blots.Lemmas.ToyOps
   `percentile` matters, the needed facts about `ops` are explicit hypotheses.
   Comparison is on bit patterns: `F64.fle` is IEEE `<=`, `F64.feq` IEEE `==`, `totalKey` the
   key of `f64::total_cmp`.  `sum` / `prod` / `avg` are the left folds of `ops.add` / `ops.mul`
-  from `-0.0` / `1.0` (what `Iterator::sum` / `product` do); NO rounding-error bound relating
-  them to the real-number sum is attempted, and they are not permutation invariant.
+  from `-0.0` / `1.0` (what `Iterator::sum` / `product` do).  They are not bit-exactly
+  permutation invariant (`sum_order_matters_under_model`).  "Up to rounding" is made exact in
+  section 7: under the STANDARD MODEL of floating-point arithmetic, an explicit hypothesis
+  `RoundingModel ops u` on the abstract `ops` (Lemmas/Rounding.lean; IEEE binary64 is the
+  intended inhabitant with `u = 2^-53`, validated numerically by the harness), the classical
+  forward error bounds hold, hence permutation invariance within twice the bound.
   `median` / `percentile` are bit-exactly permutation invariant; `min` / `max` only up to IEEE
   `==` (the sign of a zero result depends on the order: `min_exact_permutation_invariance_fails`),
   and `percentile(l, 0)` / `percentile(l, 100)` equal `min` / `max` up to IEEE `==` as well.
@@ -524,6 +529,165 @@ theorem min_exact_permutation_invariance_fails : ¬ min_exact_permutation_invari
   injection this with this
   exact h3 this
 
+/-! #### 7. `sum`, `avg`, `prod` up to rounding: error bounds under the standard model
+
+  `RoundingModel ops u` (Lemmas/Rounding.lean) is Higham's model (2.4):
+  `fl(a op b) = (a op b)(1 + δ)`, `|δ| ≤ u`, for `+ × /` on finite operands whenever the
+  computed result is finite and (for `× /`) the exact result did not underflow.  `x.toRat` is
+  the exact rational value of a finite double; `exactSum ns = Σ xᵢ`, `exactAbsSum ns = Σ |xᵢ|`,
+  `exactProd ns = Π xᵢ` in ℚ.  The accumulated factor is written `(1+u)^n − 1` (it is `≤ γₙ =
+  n·u/(1 − n·u)` when `n·u < 1`; for `n = 50`, `u = 2^-53`: `< 5.6e-15`).  The exponent is `n`,
+  not `n − 1`, because the model's fold starts with `-0.0 + x₁` / `1.0 × x₁`, which the abstract
+  model does not know to be exact.
+
+  Side conditions, each NEEDED:
+  * `PartialsFinite f a ns`: operands and every partial result finite.  Overflow:
+    `sum(1.7e308, 1.7e308, -1.7e308)` is `inf` in one order and `1.7e308` in another.
+  * `PartialProductsNoUnderflow` (prod) / `NoUnderflow (s / n)` (avg): no exact product /
+    quotient lands strictly between `0` and the smallest normal double `2^-1022`.  Underflow:
+    `prod(5e-324, 0.5, 2)` is `0` (`5e-324 × 0.5` rounds to `0`) while `prod(2, 5e-324, 0.5)`
+    is `5e-324`, and the exact product is `4.9e-324`: relative error `1` whatever `n`
+    (`underflow_breaks_relative_model`).  Sums need no such condition (IEEE addition is exact
+    in the subnormal range).
+  * `ns.length < 2^53` (avg): the count converts to a double exactly. -/
+
+/-- `sum` of `n` numbers: `|fl(Σ) − Σ xᵢ| ≤ ((1+u)^n − 1) · Σ |xᵢ|` (both conventions: any
+    `args` that hands `ns` to the aggregate, `numbers_of_both_conventions`) -/
+theorem sum_error_bound (ops : NumOps) (u : ℚ) (M : RoundingModel ops u)
+    (args : List Value) (ns : List F64) (h : aggArgs args = .ok ns) (hne : ns ≠ [])
+    (hfin : PartialsFinite ops.add F64.negZero ns) :
+    ∃ s, callPure ops "sum" args = some (.ok (.num s)) ∧ s.isFinite = true ∧
+      |s.toRat - exactSum ns| ≤ ((1 + u) ^ ns.length - 1) * exactAbsSum ns :=
+  ⟨_, (sum_prod_avg_are_left_folds ops args ns h hne).1, hfin.result, sum_error M ns hfin⟩
+
+/-- INVARIANT UNDER PERMUTATION UP TO ROUNDING, exactly: two sums of the same numbers in two
+    orders (and in either convention each) differ by at most `2 · ((1+u)^n − 1) · Σ |xᵢ|` -/
+theorem sum_permutation_invariant_up_to_rounding (ops : NumOps) (u : ℚ) (M : RoundingModel ops u)
+    (ns ms : List F64) (hp : ns.Perm ms) (hne : ns ≠ [])
+    (h1 : PartialsFinite ops.add F64.negZero ns) (h2 : PartialsFinite ops.add F64.negZero ms)
+    (a b : List Value) (ha : aggArgs a = .ok ns) (hb : aggArgs b = .ok ms) :
+    ∃ s t, callPure ops "sum" a = some (.ok (.num s)) ∧ callPure ops "sum" b = some (.ok (.num t)) ∧
+      |s.toRat - t.toRat| ≤ 2 * ((1 + u) ^ ns.length - 1) * exactAbsSum ns := by
+  have hne' : ms ≠ [] := fun h0 => hne (by rw [h0] at hp; exact hp.eq_nil)
+  exact ⟨_, _, (sum_prod_avg_are_left_folds ops a ns ha hne).1,
+    (sum_prod_avg_are_left_folds ops b ms hb hne').1, sum_perm_error M hp h1 h2⟩
+
+/-- `avg`: one more rounding, the division by the count:
+    `|fl(avg) − (Σ xᵢ)/n| ≤ ((1+u)^(n+1) − 1) · (Σ |xᵢ|)/n` -/
+theorem avg_error_bound (ops : NumOps) (u : ℚ) (M : RoundingModel ops u)
+    (args : List Value) (ns : List F64) (h : aggArgs args = .ok ns) (hne : ns ≠ [])
+    (hlen : ns.length < 2 ^ 53)
+    (hfin : PartialsFinite ops.add F64.negZero ns)
+    (hdiv : (ops.div (ns.foldl ops.add F64.negZero) (F64.ofNat ns.length)).isFinite = true)
+    (hnu : NoUnderflow ((ns.foldl ops.add F64.negZero).toRat / (ns.length : ℚ))) :
+    ∃ m, callPure ops "avg" args = some (.ok (.num m)) ∧ m.isFinite = true ∧
+      |m.toRat - exactSum ns / (ns.length : ℚ)| ≤
+        ((1 + u) ^ (ns.length + 1) - 1) * exactAbsSum ns / (ns.length : ℚ) :=
+  ⟨_, (sum_prod_avg_are_left_folds ops args ns h hne).2.2, hdiv,
+    avg_error M ns hne hlen hfin hdiv hnu⟩
+
+/-- `avg` of the same numbers in two orders: within twice the bound -/
+theorem avg_permutation_invariant_up_to_rounding (ops : NumOps) (u : ℚ) (M : RoundingModel ops u)
+    (ns ms : List F64) (hp : ns.Perm ms) (hne : ns ≠ []) (hlen : ns.length < 2 ^ 53)
+    (h1 : PartialsFinite ops.add F64.negZero ns) (h2 : PartialsFinite ops.add F64.negZero ms)
+    (d1 : (ops.div (ns.foldl ops.add F64.negZero) (F64.ofNat ns.length)).isFinite = true)
+    (d2 : (ops.div (ms.foldl ops.add F64.negZero) (F64.ofNat ms.length)).isFinite = true)
+    (n1 : NoUnderflow ((ns.foldl ops.add F64.negZero).toRat / (ns.length : ℚ)))
+    (n2 : NoUnderflow ((ms.foldl ops.add F64.negZero).toRat / (ms.length : ℚ)))
+    (a b : List Value) (ha : aggArgs a = .ok ns) (hb : aggArgs b = .ok ms) :
+    ∃ s t, callPure ops "avg" a = some (.ok (.num s)) ∧ callPure ops "avg" b = some (.ok (.num t)) ∧
+      |s.toRat - t.toRat| ≤
+        2 * (((1 + u) ^ (ns.length + 1) - 1) * exactAbsSum ns / (ns.length : ℚ)) := by
+  have hne' : ms ≠ [] := fun h0 => hne (by rw [h0] at hp; exact hp.eq_nil)
+  obtain ⟨s, hs, _, es⟩ := avg_error_bound ops u M a ns ha hne hlen h1 d1 n1
+  obtain ⟨t, ht, _, et⟩ := avg_error_bound ops u M b ms hb hne' (by rw [← hp.length_eq]; exact hlen)
+    h2 d2 n2
+  rw [← hp.length_eq, ← exactSum_perm hp, ← exactAbsSum_perm hp] at et
+  refine ⟨s, t, hs, ht, ?_⟩
+  have : s.toRat - t.toRat = (s.toRat - exactSum ns / (ns.length : ℚ)) -
+      (t.toRat - exactSum ns / (ns.length : ℚ)) := by ring
+  rw [this]
+  refine (abs_sub _ _).trans ?_
+  linarith
+
+/-- `prod` of `n` numbers: RELATIVE error `|fl(Π) − Π xᵢ| ≤ ((1+u)^n − 1) · |Π xᵢ|` -/
+theorem prod_error_bound (ops : NumOps) (u : ℚ) (M : RoundingModel ops u)
+    (args : List Value) (ns : List F64) (h : aggArgs args = .ok ns) (hne : ns ≠ [])
+    (hfin : PartialsFinite ops.mul F64.one ns)
+    (hnu : PartialProductsNoUnderflow ops F64.one ns) :
+    ∃ p, callPure ops "prod" args = some (.ok (.num p)) ∧ p.isFinite = true ∧
+      |p.toRat - exactProd ns| ≤ ((1 + u) ^ ns.length - 1) * |exactProd ns| :=
+  ⟨_, (sum_prod_avg_are_left_folds ops args ns h hne).2.1, hfin.result, prod_error M ns hfin hnu⟩
+
+/-- `prod` of the same numbers in two orders: within `2 · ((1+u)^n − 1) · |Π xᵢ|` -/
+theorem prod_permutation_invariant_up_to_rounding (ops : NumOps) (u : ℚ) (M : RoundingModel ops u)
+    (ns ms : List F64) (hp : ns.Perm ms) (hne : ns ≠ [])
+    (h1 : PartialsFinite ops.mul F64.one ns) (n1 : PartialProductsNoUnderflow ops F64.one ns)
+    (h2 : PartialsFinite ops.mul F64.one ms) (n2 : PartialProductsNoUnderflow ops F64.one ms)
+    (a b : List Value) (ha : aggArgs a = .ok ns) (hb : aggArgs b = .ok ms) :
+    ∃ s t, callPure ops "prod" a = some (.ok (.num s)) ∧ callPure ops "prod" b = some (.ok (.num t)) ∧
+      |s.toRat - t.toRat| ≤ 2 * ((1 + u) ^ ns.length - 1) * |exactProd ns| := by
+  have hne' : ms ≠ [] := fun h0 => hne (by rw [h0] at hp; exact hp.eq_nil)
+  exact ⟨_, _, (sum_prod_avg_are_left_folds ops a ns ha hne).2.1,
+    (sum_prod_avg_are_left_folds ops b ms hb hne').2.1, prod_perm_error M hp h1 n1 h2 n2⟩
+
+/-- the textbook constant: the factor `(1+u)^n − 1` of all the bounds above is at most
+    `γₙ = n·u / (1 − n·u)` when `n·u < 1` (Higham Lemma 3.1), so e.g.
+    `|fl(Σ) − Σ xᵢ| ≤ γₙ · Σ |xᵢ|` -/
+theorem rounding_factor_le_gamma (u : ℚ) (hu : 0 ≤ u) (n : ℕ) (hn : (n : ℚ) * u < 1) :
+    (1 + u) ^ n - 1 ≤ (n : ℚ) * u / (1 - (n : ℚ) * u) :=
+  Rounding.E_le_gamma hu n hn
+
+/-- "up to rounding" cannot be dropped: there are primitives satisfying the standard model
+    (`guardedOps`: correct rounding by `F64.ofRatio`, `u = 2^-53`) for which
+    `sum(0.1, 0.2, 0.3) = 0.6000000000000001` and `sum(0.3, 0.2, 0.1) = 0.6` (as on the real
+    binary), and likewise `prod` -/
+theorem sum_order_matters_under_model :
+    ∃ (ops : NumOps) (u : ℚ), RoundingModel ops u ∧ ∃ ns ms : List F64, ns.Perm ms ∧
+      callPure ops "sum" (ns.map .num) ≠ callPure ops "sum" (ms.map .num) ∧
+      callPure ops "prod" (ns.map .num) ≠ callPure ops "prod" (ms.map .num) := by
+  refine ⟨guardedOps, u64, guardedOps_model, [dbl01, dbl02, dbl03], [dbl03, dbl02, dbl01],
+    by decide, ?_, ?_⟩
+  · have h1 : [dbl01, dbl02, dbl03].foldl guardedOps.add F64.negZero =
+        F64.ofNatBits 0x3FE3333333333334 := by decide +kernel
+    have h2 : [dbl03, dbl02, dbl01].foldl guardedOps.add F64.negZero =
+        F64.ofNatBits 0x3FE3333333333333 := by decide +kernel
+    rw [callPure_sum, callPure_sum, aggThen_of_ok (aggArgs_map_num _) (by simp),
+      aggThen_of_ok (aggArgs_map_num _) (by simp), h1, h2]
+    intro h
+    injection h with h; injection h with h; injection h with h
+    exact absurd h (by decide)
+  · have h1 : [dbl01, dbl02, dbl03].foldl guardedOps.mul F64.one =
+        F64.ofNatBits 0x3F789374BC6A7EFB := by decide +kernel
+    have h2 : [dbl03, dbl02, dbl01].foldl guardedOps.mul F64.one =
+        F64.ofNatBits 0x3F789374BC6A7EFA := by decide +kernel
+    rw [callPure_prod, callPure_prod, aggThen_of_ok (aggArgs_map_num _) (by simp),
+      aggThen_of_ok (aggArgs_map_num _) (by simp), h1, h2]
+    intro h
+    injection h with h; injection h with h; injection h with h
+    exact absurd h (by decide)
+
+/-- why `NoUnderflow` is in the model for `×` (and `/`): the correctly rounded product of the
+    finite doubles `5e-324 = 2^-1074` and `0.5` is the finite double `0`, while the exact
+    product `2^-1075` is not `0`; no `δ` with `|δ| ≤ u < 1` can give
+    `fl(a × b) = (a × b)(1 + δ)`.  (Correct rounding = `roundRat`, i.e. `F64.ofRatio`.) -/
+theorem underflow_breaks_relative_model :
+    dblTiny.isFinite = true ∧ dblHalf.isFinite = true ∧
+    dblTiny.toRat * dblHalf.toRat = 1 / 2 ^ 1075 ∧ ¬ NoUnderflow (dblTiny.toRat * dblHalf.toRat) ∧
+    roundRat (dblTiny.toRat * dblHalf.toRat) = F64.zero ∧
+    ∀ u δ : ℚ, u < 1 → |δ| ≤ u →
+      (roundRat (dblTiny.toRat * dblHalf.toRat)).toRat ≠ dblTiny.toRat * dblHalf.toRat * (1 + δ) := by
+  have hq : dblTiny.toRat * dblHalf.toRat = 1 / 2 ^ 1075 := by decide +kernel
+  have hr : roundRat (dblTiny.toRat * dblHalf.toRat) = F64.zero := by decide +kernel
+  refine ⟨by decide, by decide, hq, by unfold NoUnderflow; decide +kernel, hr, fun u δ hu hδ h => ?_⟩
+  rw [hr, F64.toRat_zero, hq] at h
+  have h1 : (1 : ℚ) + δ = 0 := by
+    rcases mul_eq_zero.mp h.symm with h0 | h0
+    · exact absurd h0 (by positivity)
+    · exact h0
+  have h2 := (abs_le.mp hδ).1
+  linarith
+
 /-! #### examples: hypotheses are satisfiable, concrete runs with the toy `ops` -/
 
 -- `conventions_agree`: a two-element list with a non-number (both sides are type errors)
@@ -655,5 +819,58 @@ example : callPure intOps "median" [.num int3, .num int1, .num int2] =
     callPure intOps "median" [.num int1, .num int2, .num int3] :=
   (median_permutation_invariant intOps [.num int3, .num int1, .num int2] [.num int1, .num int2, .num int3]
     ((List.Perm.swap _ _ _).trans ((List.Perm.swap _ _ _).cons _))).2
+
+-- section 7.  `RoundingModel` is satisfiable, with the unit roundoff of binary64 …
+example : RoundingModel guardedOps (1 / 2 ^ 53) := guardedOps_model
+-- … and the side conditions of the bounds hold for `[0.1, 0.2, 0.3]` in both orders
+example : [dbl01, dbl02, dbl03].Perm [dbl03, dbl02, dbl01] ∧
+    PartialsFinite guardedOps.add F64.negZero [dbl01, dbl02, dbl03] ∧
+    PartialsFinite guardedOps.add F64.negZero [dbl03, dbl02, dbl01] ∧
+    PartialsFinite guardedOps.mul F64.one [dbl01, dbl02, dbl03] ∧
+    PartialsFinite guardedOps.mul F64.one [dbl03, dbl02, dbl01] ∧
+    PartialProductsNoUnderflow guardedOps F64.one [dbl01, dbl02, dbl03] ∧
+    PartialProductsNoUnderflow guardedOps F64.one [dbl03, dbl02, dbl01] := by
+  unfold PartialsFinite PartialProductsNoUnderflow NoUnderflow
+  decide +kernel
+example : ([dbl01, dbl02, dbl03].length < 2 ^ 53) ∧
+    (guardedOps.div ([dbl01, dbl02, dbl03].foldl guardedOps.add F64.negZero)
+      (F64.ofNat [dbl01, dbl02, dbl03].length)).isFinite = true ∧
+    NoUnderflow (([dbl01, dbl02, dbl03].foldl guardedOps.add F64.negZero).toRat /
+      ([dbl01, dbl02, dbl03].length : ℚ)) := by
+  unfold NoUnderflow
+  decide +kernel
+-- the bounds instantiated: `sum([0.1, 0.2, 0.3])` (one list) against `sum(0.3, 0.2, 0.1)`
+-- (separate arguments): the results differ in the last bit (`sum_order_matters_under_model`)
+-- and are within `2((1 + 2^-53)^3 − 1)(0.1 + 0.2 + 0.3) ≈ 4e-16` of each other
+example : ∃ s t,
+    callPure guardedOps "sum" [.list [.num dbl01, .num dbl02, .num dbl03]] = some (.ok (.num s)) ∧
+    callPure guardedOps "sum" [.num dbl03, .num dbl02, .num dbl01] = some (.ok (.num t)) ∧
+    |s.toRat - t.toRat| ≤ 2 * ((1 + u64) ^ 3 - 1) * exactAbsSum [dbl01, dbl02, dbl03] :=
+  sum_permutation_invariant_up_to_rounding guardedOps u64 guardedOps_model
+    [dbl01, dbl02, dbl03] [dbl03, dbl02, dbl01] (by decide) (by simp)
+    (by unfold PartialsFinite; decide +kernel) (by unfold PartialsFinite; decide +kernel)
+    _ _ rfl rfl
+example : ∃ p, callPure guardedOps "prod" [.num dbl01, .num dbl02, .num dbl03] = some (.ok (.num p)) ∧
+    p.isFinite = true ∧
+    |p.toRat - exactProd [dbl01, dbl02, dbl03]| ≤ ((1 + u64) ^ 3 - 1) * |exactProd [dbl01, dbl02, dbl03]| :=
+  prod_error_bound guardedOps u64 guardedOps_model _ [dbl01, dbl02, dbl03] rfl (by simp)
+    (by unfold PartialsFinite; decide +kernel)
+    (by unfold PartialProductsNoUnderflow NoUnderflow; decide +kernel)
+example : ∃ m, callPure guardedOps "avg" [.list [.num dbl01, .num dbl02, .num dbl03]] = some (.ok (.num m)) ∧
+    m.isFinite = true ∧
+    |m.toRat - exactSum [dbl01, dbl02, dbl03] / 3| ≤
+      ((1 + u64) ^ (3 + 1) - 1) * exactAbsSum [dbl01, dbl02, dbl03] / 3 := by
+  have := avg_error_bound guardedOps u64 guardedOps_model [.list [.num dbl01, .num dbl02, .num dbl03]]
+    [dbl01, dbl02, dbl03] rfl (by simp) (by decide)
+    (by unfold PartialsFinite; decide +kernel) (by decide +kernel)
+    (by unfold NoUnderflow; decide +kernel)
+  simpa using this
+-- `rounding_factor_le_gamma`: for the 50 numbers of the property's quantifier and binary64,
+-- `n·u = 50 · 2^-53 < 1`
+example : (0 : ℚ) ≤ u64 ∧ ((50 : ℕ) : ℚ) * u64 < 1 := by unfold u64; norm_num
+-- overflow: with correct rounding `max + max` is not finite, so `PartialsFinite` fails and
+-- `toRat` of the result means nothing
+example : (guardedOps.add dblMax dblMax).isFinite = false ∧ (roundRat (dblMax.toRat + dblMax.toRat)) = F64.inf := by
+  decide +kernel
 
 end Blots.C15
